@@ -290,8 +290,12 @@ def gen_table(rng):
             st['name'] = rng.choice(names if not forced else [x for x in names if x != func])
         if k.startswith('fn_'):
             st['args'] = [[kk, mk.next(rng)] for kk in rng.sample(['x', 'y', 0, 'v'], rng.randrange(0, 3))]
+        if k != 'list' and rng.random() < 0.3:
+            # the merged-in node sits below a !merge ancestor (document root or an enclosing mapping): a function node still replaces
+            # the arguments unless *it* is told to merge
+            st['under_merge'] = rng.choice(['root', 'wrapper'])
         hist.append(st)
-    return {'kind': 'table', 'first': first, 'hist': hist}
+    return {'kind': 'table', 'first': first, 'hist': hist, 'nest': rng.random() < 0.5}
 
 
 def run_table(case):
@@ -303,7 +307,10 @@ def run_table(case):
         if 'args' in st:
             st['args'] = dict((k, v) for k, v in st['args'])
     fset = set(case['first'].get('forced') or [])
-    docs = [M([['other', S(1)], ['f', SP(kind, func=func, args=M([[k, S(v, prio=1) if k in fset else S(v)] for k, v in args.items()]))]])]
+    nest = bool(case.get('nest'))
+    wrap = (lambda n_, **fl: M([['top', M([['f', n_]], **fl)]])) if nest else (lambda n_, **fl: M([['f', n_]], **fl))
+    first_fn = SP(kind, func=func, args=M([[k, S(v, prio=1) if k in fset else S(v)] for k, v in args.items()]))
+    docs = [M([['other', S(1)], ['top', M([['f', first_fn]])]]) if nest else M([['other', S(1)], ['f', first_fn]])]
     if fset:
         feats_forced = True
     feats = []
@@ -348,7 +355,15 @@ def run_table(case):
                     args.update(st['args'])
                 else:
                     args = dict(st['args'])
-        docs.append(M([['f', node]]))
+        um = st.get('under_merge')
+        if um:
+            feats.append('below_merge_ancestor_' + um)
+            d = wrap(node, **{'del': False}) if (um == 'wrapper' or not nest) else wrap(node)
+            if um == 'root' and nest:
+                d['del'] = False
+            docs.append(d)
+        else:
+            docs.append(wrap(node))
     texts = [emit.emit(d, 'flow') for d in docs]
     got = lib.outcome(lambda: lib.merged(texts))
     vio = []
@@ -357,7 +372,7 @@ def run_table(case):
     if got[0] == 'err':
         vio.append({'mech': 'table-merge-fails', 'what': f'history {case["hist"]!r} on {case["first"]!r}: build {lib.describe(got)}; texts={texts!r}'})
     else:
-        n = got[1].ayns.get_child('f')
+        n = got[1].ayns.get_child('top').ayns.get_child('f') if nest else got[1].ayns.get_child('f')
         from awesomeyaml.nodes.function import FunctionNode
         if not isinstance(n, FunctionNode):
             vio.append({'mech': 'function-node-lost', 'what': f'after {case["hist"]!r} the node at f is a {type(n).__name__}; texts={texts!r}'})
